@@ -217,8 +217,13 @@ def run_case(case, ctx):
         Hobj = agg.get_Hamiltonian()
         H = numpy.array(Hobj.data, dtype=float)
         nb0 = int(agg.Nb[0])
+        # what was done with the aggregate before the states are requested (spectroscopic calculators diagonalize it implicitly)
+        pre = ["none", "diagonalize", "none"][case.get("id", 0) % 3]
+        if pre == "diagonalize":
+            agg.diagonalize()
+            ctx.event("aggregates_diagonalized_before_the_requests")
     dim = H.shape[0]
-    base = {"N": N, "T": T, "with_bath": case["with_bath"], "mode": case["mode"] is not None, "E": desc["E"]}
+    base = {"N": N, "T": T, "with_bath": case["with_bath"], "mode": case["mode"] is not None, "E": desc["E"], "before": pre}
     Hex = H[nb0:, nb0:]
     nontriv = (dim - nb0) >= 2 and float(numpy.ptp(numpy.linalg.eigvalsh(Hex))) > 0
 
